@@ -3,6 +3,20 @@ import driver
 from driver import Check, ToolError, log
 
 
+def c11(ck):
+    ck.rule = ("all 4356 ordered pairs of a 66-value pool: nil, booleans, integers (0, +-1, 2, 2^53, 2^53+1, i64 bounds), floats (0, 0.5, 1, 2, -1, "
+               "2^53, +-2^63, +-inf, nan), strings (empty, blank, numeric-looking, 'true', mixed case, non-ASCII, NBSP), date-times (same "
+               "instant in three offsets, one second later, same local day), dates, empty/blank markers, arrays and objects nested two "
+               "deep incl. six-key objects; each pair through ValueViewCmp (7 operators), ValueCow owned/borrowed/mixed and 9 templates, "
+               "with both values built twice (reversed key insertion order, separate maps); the replay runs in two passes of fresh worker "
+               "processes; non-trivial = the two values differ")
+    ck.assumptions = ["integer/float equality is claimed by the property only up to 2^53; beyond, the model follows (i as f64) == f",
+                      "object order is the order of key-sorted entries"]
+    ck.replay_stage("pairs", "MC_C11", "MC_C11_quick.cfg", tlc_workers=8, harness_workers=4, timeout=3000)
+    # a second pass in fresh worker processes: per-process hash seeds differ, the specification's answers do not
+    ck.replay_stage("pairs-second-process", "MC_C11", "MC_C11_quick.cfg", tlc_workers=8, harness_workers=6, timeout=3000)
+
+
 def c13(ck):
     ck.rule = ("every string of length <= 3 (thorough 4) over {a, B, space, LF, tab, comma, <, e-acute, U+0301, emoji} x every filter "
                "link: 11 argument-free filters; append/prepend/remove/remove_first/split/default x every argument string of length "
@@ -216,7 +230,7 @@ def c20(ck):
     ck.trace_stage("realthreads", ["threads", "--runs", runs], "Trace_Threads", "Trace_Threads.cfg", heap="8g", timeout=3000)
 
 
-PROPS = {"C03": c03, "C04": c04, "C06": c06, "C07": c07, "C08": c08, "C09": c09, "C10": c10, "C13": c13, "C14": c14, "C15": c15, "C16": c16, "C19": c19, "C20": c20, "C05": c05, "C18": c18}
+PROPS = {"C03": c03, "C04": c04, "C06": c06, "C07": c07, "C08": c08, "C09": c09, "C10": c10, "C11": c11, "C13": c13, "C14": c14, "C15": c15, "C16": c16, "C19": c19, "C20": c20, "C05": c05, "C18": c18}
 
 
 def replay_file(prop, path):
